@@ -113,7 +113,7 @@ def addr_of(hexs):
 
 def mk_utxo(lit):
     txid, idx, addr, val = lit
-    return UTxO(TransactionInput(TransactionId(bytes.fromhex(txid)), idx), TransactionOutput(addr_of(addr), mk_val(val)))
+    return wire(UTxO(TransactionInput(TransactionId(bytes.fromhex(txid)), idx), TransactionOutput(addr_of(addr), mk_val(val))))
 
 
 def guarded(f):
